@@ -60,12 +60,12 @@ DecodeGob(bs) ==
      ELSE MkDec(IF f.form = 0 THEN "zero" ELSE "inf", f.neg, Zero, IZero, p, f.mode, f.accp - 1)
 
 (* z.GobDecode(bs) for a well-formed payload: everything is taken from the payload when z.prec = 0, *)
-(* otherwise z keeps its precision and mode and the value is rounded to them (accuracy then free)  *)
+(* otherwise z keeps its precision and mode and the value is rounded to them (accuracy: of that rounding) *)
 OpGobDecode(z, bs) ==
   IF Len(bs) = 0 THEN Outcome("ok", ZeroValue, {}, {"C17"})                  \* the other side sent a nil / zero value
   ELSE LET d == DecodeGob(bs)
        IN IF z.prec = 0 THEN Outcome("ok", d, {}, {"C17"})
-          ELSE OkFree(SetLike(d.neg, d, z.prec, z.mode), z.prec, z.mode, {"C17"}, {"acc"})
+          ELSE Ok(SetLike(d.neg, d, z.prec, z.mode), z.prec, z.mode, {"C17"})
 
 (* one possible encoding of a canonical d (the one with the fewest words) - used by bounded models *)
 EncodeGob(d) ==
